@@ -59,6 +59,7 @@ seq_t dtw_warping_paths{{ suffix }}{{ suffix2 }}(seq_t *wps,
     DTWWps p = dtw_wps_parts(l1, l2, settings);
 
     {%- if "affinity" not in suffix %}
+    seq_t user_max_dist = p.max_dist;
     if (settings->use_pruning || settings->only_ub) {
         if (ndim == 1) {
             p.max_dist = ub_euclidean{{ suffix2 }}(s1, l1, s2, l2);
@@ -80,6 +81,10 @@ seq_t dtw_warping_paths{{ suffix }}{{ suffix2 }}(seq_t *wps,
         // sqrt followed by pow can round below the exact sum, keep the bound an upper bound
         p.max_dist = pow(p.max_dist, 2) * (1 + 4*DBL_EPSILON);
         {%- endif %}
+        if (user_max_dist < p.max_dist) {
+            // An explicitly given max_dist stays in force if it is the smaller bound
+            p.max_dist = user_max_dist;
+        }
     }
     {%- endif %}
 
